@@ -1,0 +1,6 @@
+//go:build !verif
+// +build !verif
+
+package limiter
+
+func verifYield(point string) {}
